@@ -2,6 +2,7 @@ import CacheVerif.Proofs.ProtoLocks
 import CacheVerif.Proofs.ProtoHW
 import CacheVerif.Props.C11
 import CacheVerif.Props.C01
+import CacheVerif.Proofs.DeepSource
 /-!
 # C05 — get-or-create and compute calls are atomic per key; user function runs once
 
@@ -56,6 +57,15 @@ exactly once with `(old, true)` iff a live value exists -/
 theorem C05_seq_cache (s : Model.Cache.St K V) (a : TTL.St K V) (h : Proofs.CacheRefine.Sim s a) (op : Model.Op K V) :
     (Model.Cache.step s op).2.fn = (TTL.step a op).2.2 :=
   (Proofs.CacheRefine.step_sim s a h op).2.2
+
+/-- the same for the text of both source files (method bodies printed from the working tree, run by the
+interpreter of the Go subset): the user function of `GetOrCompute` is invoked at most once and only when no live
+value exists, the one of `Compute` exactly once with the live value or `(zero, false)` — also when the function
+takes time (`getOrComputeSlow`, `computeSlow`) -/
+theorem C05_source_cache (s : Model.Cache.St K V) (a : TTL.St K V) (h : Proofs.CacheRefine.Sim s a) (op : Model.Op K V)
+    (T : Deep.Twin K V) (hT : DeepSource.IsTwin T) :
+    ∃ s' r, Deep.deepStep T s op = some (s', r) ∧ r.fn = (TTL.step a op).2.2 :=
+  ⟨_, _, DeepSource.step s op T hT, C05_seq_cache s a h op⟩
 
 /-- **exactly one winner**: any non-empty sequence of `LoadOrStore`s on a key that is absent (nobody else
 writing it) stores exactly the first caller's value, exactly that caller reports `loaded = false`, and every
